@@ -30,7 +30,7 @@ def faceText (f : Face) : String :=
   let fl := if f.ndnlp then faceFlags f else 0
   let b := if f.ndnlp then toString f.bcmi else "-"
   let d := if f.ndnlp then toString f.dct else "-"
-  s!"{f.id}:{f.uri}:{if f.isLocal then 1 else 0}:{f.pers}:{f.mtu}:{fl}:{b}:{d}"
+  s!"{f.id},{f.uri},{f.luri},{if f.isLocal then 1 else 0},{f.pers},{f.mtu},{fl},{b},{d}"
 
 def facesText (fs : List Face) : String := joinOrDash ((canonFaces fs).map faceText) "|"
 
@@ -55,6 +55,7 @@ def datasetText (d : Dataset) : String :=
   | .cs c fl n => s!"cap={c},flags={fl},n={n}"
   | .status n => s!"nfib={n}"
   | .faces fs => facesText fs
+  | .query _ fs => facesText fs
 
 def pfxText (p : Name) : String :=
   if p == lhPrefix then "lh" else if p == lpPrefix then "lp" else "other"
@@ -63,7 +64,9 @@ def respText (r : Resp) : String :=
   match r with
   | .none => "none"
   | .ctrl c a => s!"{c}:{argsText a}"
-  | .dataset p mv v d => s!"ds:{pfxText p}:{mv}:6:v{v}:s0:final:{datasetText d}"
+  | .dataset p mv v d =>
+    let len := if mv == "faces/query" then p.length + 2 else 6
+    s!"ds:{pfxText (p.take 2)}:{mv}:{len}:v{v}:s0:final:{datasetText d}"
   | .panic m => "PANIC " ++ m
 
 /-! ### parsing -/
@@ -110,19 +113,16 @@ def parseSc (s : String) : Option Sc :=
     | _ => none
 
 def parseFace (s : String) : Option Face :=
-  let ps := s.splitOn ":"
-  if ps.length < 8 then none else
-  let id := ps.head!
-  let tailv := ps.drop (ps.length - 6)
-  let uri := ":".intercalate ((ps.drop 1).take (ps.length - 7))
-  match tailv with
-  | [sc, pe, mtu, fl, b, d] => do
-    let id ← id.toNat?; let sc ← (if sc == "1" then some true else if sc == "0" then some false else none); let pe ← pe.toNat?; let mtu ← mtu.toNat?; let fl ← fl.toNat?
+  match s.splitOn "," with
+  | [id, uri, luri, sc, pe, mtu, fl, b, d] => do
+    let id ← id.toNat?; let sc ← (if sc == "1" then some true else if sc == "0" then some false else none)
+    let pe ← pe.toNat?; let mtu ← mtu.toNat?; let fl ← fl.toNat?
     let scheme := (uri.splitOn "://").head!
+    let lscheme := if luri == "tcp-local" then scheme else (luri.splitOn "://").head!
     let ndnlp := b != "-"
     let b ← (if ndnlp then b.toNat? else some 0)
     let d ← (if ndnlp then d.toNat? else some 0)
-    pure { id := id, uri := uri, rscheme := scheme, lscheme := scheme, isLocal := sc, pers := pe, mtu := mtu,
+    pure { id := id, uri := uri, luri := luri, rscheme := scheme, lscheme := lscheme, isLocal := sc, pers := pe, mtu := mtu,
            ndnlp := ndnlp, localFields := fl % 2 == 1, congMark := fl / 4 % 2 == 1, bcmi := b, dct := d }
   | _ => none
 
@@ -175,8 +175,30 @@ def argsOfFields (fs : List String) : Option Args :=
 
 /-- the N= and S= values contain '=' only in their key, but names contain '/', which is also the
     width separator of naturals: handled above by re-reading the raw field for N and S -/
+def filterOfFields (fs : List String) : Option Filter :=
+  fs.foldlM (init := ({} : Filter)) fun q f =>
+    match f.splitOn "=" with
+    | [k, v] =>
+      if k == "S" then (bytesOfHex v).map fun b => { q with scheme := some b }
+      else if k == "U" then (bytesOfHex v).map fun b => { q with uri := some b }
+      else if k == "L" then (bytesOfHex v).map fun b => { q with luri := some b }
+      else match v.toNat? with
+        | none => none
+        | some x =>
+          if k == "F" then some { q with faceId := some x }
+          else if k == "C" then some { q with scope := some x }
+          else if k == "P" then some { q with pers := some x }
+          else if k == "T" then some { q with linkType := some x }
+          else none
+    | _ => none
+
 def parseParamsTok (tok : String) : Option Params :=
   if tok.startsWith "raw:" then some .undecodable
+  else if tok == "q:e" then some (.filter {})
+  else if tok.startsWith "q:" then (filterOfFields ((tok.drop 2).toString.splitOn ";")).map .filter
+  else if tok == "ap:data" then some (.app .data)
+  else if tok == "ap:garbage" then some (.app .garbage)
+  else if tok == "ap:nodigest" then some (.app .missing)
   else if tok == "e" then some (.args {})
   else (argsOfFields (tok.splitOn ";")).map .args
 
@@ -187,7 +209,7 @@ def parseDataset (kind content : String) : Option Dataset :=
   if kind == "rib/list" then (parseRib content).map .rib
   else if kind == "fib/list" then (parseFib content).map .fib
   else if kind == "strategy-choice/list" then (parseSc content).map .sc
-  else if kind == "faces/list" then (parseFaces content).map .faces
+  else if kind == "faces/list" || kind == "faces/query" then (parseFaces content).map .faces
   else if kind == "status/general" then
     (if content.startsWith "nfib=" then (content.drop 5).toString.toNat?.map .status else none)
   else if kind == "cs/info" then
@@ -239,7 +261,7 @@ def parseCmd (f : List String) : Option CmdOp :=
     let m ← (if module == "-" then some [] else (Component.ofText module).map ([·]))
     let v ← (if verb == "-" then some [] else (Component.ofText verb).map ([·]))
     let t ← tail.toNat?
-    let pc : Name := if params == "-" then [] else [⟨8, []⟩]
+    let pc : Name := if params == "-" then [] else if params.startsWith "ap:" then [⟨2, []⟩] else [⟨8, []⟩]
     let name := pfx ++ m ++ v ++ pc ++ List.replicate t ⟨8, [116]⟩
     let p ← (if params == "-" then some .undecodable else parseParamsTok params)
     let key := ".".intercalate ((m ++ v).map compWord)
